@@ -185,9 +185,9 @@ def idScalar : FieldDecl → Bool
   | _ => false
 
 mutual
-/-- scalars with every constraint, enums, Array / Deque / Tuple (homogeneous — with uniqueItems when
-    the items are plain scalars — or positional), Set of strings, Map from strings, `Optional[X]`, and
-    nested Structure classes, at any depth -/
+/-- scalars with every constraint, enums, NoneField, Array / Deque / Tuple (homogeneous — with uniqueItems
+    when the items are plain scalars — or positional), Set of strings, Map from strings, `Optional[X]`,
+    nested Structure classes and StructureReference (inline classes), at any depth -/
 def exactDecl : FieldDecl → Bool
   | .number _ => true
   | .integer _ => true
@@ -201,7 +201,7 @@ def exactDecl : FieldDecl → Bool
   | .tupleOf f u => (!u || idScalar f) && exactDecl f
   | .tuplePos fs u => !u && exactAll fs
   | .struct c fields _ =>
-    !c.inline && c.accepts.contains c.name && decide ((fields.map (·.1)).Nodup) && exactFields fields
+    (c.inline || c.accepts.contains c.name) && decide ((fields.map (·.1)).Nodup) && exactFields fields
   | .seqAny _ _ => false
   | .setAny _ _ => false
   | .setOf _ f _ => isStringDecl f
@@ -211,7 +211,7 @@ def exactDecl : FieldDecl → Bool
   | .oneOf _ => false
   | .allOf _ => false
   | .notF _ => false
-  | .noneF => false
+  | .noneF => true
   | .anything => false
 termination_by structural f => f
 def exactAll : List FieldDecl → Bool
